@@ -72,6 +72,7 @@ class Contract:
             return None
         return {"inv": f"inv_{ordn}" if inv is not None else None,
                 "variant": f"variant_{ordn}" if f"variant_{ordn}" in self.fns else None,
+                "exit": f"exit_{ordn}" if f"exit_{ordn}" in self.fns else None,
                 "unroll": unroll, "contract": self}
 
 
@@ -551,6 +552,7 @@ class Verifier:
             rclauses, rparams = con.clauses("raises")
             rconds = [(exc, ex.truth(ex.ev(c, reg.clause_frame(con, rparams, scope, ex)))) for exc, c in rclauses]
             fr = Frame(fi, fi.module, dict(env))
+            ex.frames = []
             try:
                 try:
                     ex.exec_block(fi.body(), fr)
